@@ -8,7 +8,7 @@ from .. import fsmon, model, sig, syncgen
 PROP = "C13"
 LEVEL = "exploration"
 MONITORS = ["source_readonly", "jobs_present", "missing_files_copied", "dst_only_files_kept", "dst_only_keys_kept",
-            "idempotent", "no_recursion_unless_asked", "resync_after_removal"]
+            "idempotent", "no_recursion_unless_asked", "resync_after_removal", "sync_under_io_error"]
 RULE = (
     "Project pairs over a small universe (0-4 jobs per side from 4 state points, overlapping/disjoint; files "
     "identical / differing / same-size-same-mtime-different-content / one-sided, nested directories two levels "
@@ -31,6 +31,10 @@ TIME_CAP = {"quick": 70, "thorough": 1500}
 def gen_cases(ctx):
     rng = ctx.grng("c13")
     n = ctx.budget(30000, 300000)
+    # a sync under I/O errors: whenever it *returns*, the post-condition holds
+    for shape in ("job-level", "project-level"):
+        if ctx.take(0 if shape == "job-level" else 1):
+            yield {"faults": shape}
     for i in range(n):
         src, dst = syncgen.rand_side(rng), syncgen.rand_side(rng)
         syncgen.correlate(rng, src, dst)
@@ -69,8 +73,84 @@ def doc_of(snap_files):
     return json.loads(e[1].decode())
 
 
+def run_faults(ctx, case):
+    """Every audited file-system step (reads included) of a sync that has files to copy fails once with EIO or EACCES,
+    every writing step also with ENOENT. The call may raise; if it returns, every source-only file is in the
+    destination."""
+    import errno
+    import shutil
+
+    import signac
+
+    from .. import faultrun
+
+    files = {"a.txt": "alpha", "only_src.txt": "new", "sub/only_src2.txt": "new2", "sub/deep/z.txt": "zed"}
+
+    def setup(root):
+        S = signac.init_project(os.path.join(root, "s"))
+        D = signac.init_project(os.path.join(root, "d"))
+        for k in (1, 2):
+            js = S.open_job({"a": k}).init()
+            for rel, c in files.items():
+                sig.write_file(js.fn(rel), c + str(k))
+            js.document["k"] = k
+        jd = D.open_job({"a": 1}).init()
+        sig.write_file(jd.fn("a.txt"), "alpha1")
+        sig.write_file(jd.fn("sub/keep.txt"), "dst only")
+        return {"S": signac.Project(os.path.join(root, "s")), "D": signac.Project(os.path.join(root, "d"))}
+
+    def op(root, st):
+        if case["faults"] == "job-level":
+            st["D"].open_job({"a": 1}).sync(st["S"].open_job({"a": 1}), recursive=True)
+        else:
+            st["D"].sync(st["S"], recursive=True, check_schema=False)
+
+    def missing(root):
+        out = []
+        for k in ((1,) if case["faults"] == "job-level" else (1, 2)):
+            jid = model.model_id({"a": k})
+            for rel, c in files.items():
+                fn = os.path.join(root, "d", "workspace", jid, rel)
+                try:
+                    with open(fn) as f:
+                        if f.read() != c + str(k):
+                            out.append((k, rel, "differs"))
+                except OSError:
+                    out.append((k, rel, "absent"))
+        return out
+
+    base = ctx.scratch("sf")
+    root0 = os.path.join(base, "rec")
+    os.makedirs(root0)
+    rec = faultrun.run(setup, op, root0, include_reads=True)
+    if rec["outcome"] != "returned" or missing(root0):
+        raise RuntimeError(f"recording run failed: {rec['outcome']} {rec.get('error')} {missing(root0)}")
+    n = 0
+    for st in rec["steps"]:
+        for ename, eno in (("EIO", errno.EIO), ("ENOENT", errno.ENOENT), ("EACCES", errno.EACCES)):
+            if ename == "ENOENT" and not st["mut"]:
+                continue  # on a read, signac by design takes ENOENT for "not there" (cf. C11)
+            root = os.path.join(base, f"r{n}")
+            n += 1
+            os.makedirs(root)
+            res = faultrun.run(setup, op, root, plan=("err", st["k"], eno), include_reads=True)
+            if res.get("fired"):
+                ctx.monitor("sync_under_io_error")
+                if res["outcome"] == "returned":
+                    miss = missing(root)
+                    if miss:
+                        ctx.violation("missing-file-not-copied", "sync returned normally after an injected I/O error, but source-only files are missing in the destination",
+                                      {"entry": case["faults"], "step": st["ev"], "errno": ename, "missing": miss[:5], "under_fault": True})
+                        return
+                ctx.distinct("nontrivial", ["faults", case["faults"], st["k"], ename])
+            shutil.rmtree(root, ignore_errors=True)
+
+
 def run_case(ctx, case):
     from signac.errors import DocumentSyncConflict, FileSyncConflict, SchemaSyncConflict
+
+    if "faults" in case:
+        return run_faults(ctx, case)
 
     src_spec, dst_spec, opts = case["src"], case["dst"], case["opts"]
     S = syncgen.build(ctx, src_spec, "s")
